@@ -44,27 +44,17 @@ theorem refreshUnderLock_sound (cfg : Cfg) (env : Env) (s1 s : Session)
   · right
     simp only [hn, Bool.not_true, Bool.false_eq_true, ↓reduceIte] at h
     refine ⟨hn, ?_⟩
-    cases hr : env.refresh s1 with
-    | refreshed s' =>
-      simp only [hr] at h
-      split at h
-      · rename_i hv; simp at h; subst h; exact ⟨hv, Or.inl ⟨s', rfl, rfl⟩⟩
-      · simp at h
-    | notImplemented =>
-      simp only [hr] at h
-      split at h
-      · rename_i hv; simp at h; subst h; exact ⟨hv, Or.inr (Or.inl ⟨rfl, rfl⟩)⟩
-      · simp at h
-    | notRefreshed =>
-      simp only [hr] at h
-      split at h
-      · rename_i hv; simp at h; subst h; exact ⟨hv, Or.inr (Or.inr ⟨Or.inl rfl, rfl⟩)⟩
-      · simp at h
-    | err =>
-      simp only [hr] at h
-      split at h
-      · rename_i hv; simp at h; subst h; exact ⟨hv, Or.inr (Or.inr ⟨Or.inr rfl, rfl⟩)⟩
-      · simp at h
+    split at h
+    · rename_i hv
+      simp at h; subst h
+      refine ⟨hv, ?_⟩
+      unfold refreshOutcome
+      cases hr : env.refresh s1 with
+      | refreshed s' => exact Or.inl ⟨s', rfl, rfl⟩
+      | notImplemented => exact Or.inr (Or.inl ⟨rfl, rfl⟩)
+      | notRefreshed => exact Or.inr (Or.inr ⟨Or.inl rfl, rfl⟩)
+      | err => exact Or.inr (Or.inr ⟨Or.inr rfl, rfl⟩)
+    · simp at h
   · left
     have hn' : needsRefresh cfg env.now s1 = false := by simpa using hn
     simp [hn'] at h
@@ -103,31 +93,19 @@ theorem getValidatedSession_sound (cfg : Cfg) (env : Env) (s : Session)
 theorem c01_loaders_sound (cfg : Cfg) (env : Env) (r : Req) (s : Session)
     (h : (sessionChain cfg env r).session = some s) : Cred cfg env r s := by
   unfold sessionChain at h
-  by_cases hj : cfg.jwtEnabled = true
-  · simp only [hj, ↓reduceIte] at h
-    cases hb : env.bearer r with
-    | some sb => simp [hb] at h; subst h; exact Or.inl ⟨hj, hb⟩
-    | none =>
-      simp only [hb] at h
-      by_cases hba : cfg.basicEnabled = true
-      · simp only [hba, ↓reduceIte] at h
-        cases hbb : env.basic r with
-        | some sb => simp [hbb] at h; subst h; exact Or.inr (Or.inl ⟨hba, hbb⟩)
-        | none => simp only [hbb] at h; exact Or.inr (Or.inr (getValidatedSession_sound cfg env s h))
-      · have : cfg.basicEnabled = false := by simpa using hba
-        simp only [this, Bool.false_eq_true, ↓reduceIte] at h
-        exact Or.inr (Or.inr (getValidatedSession_sound cfg env s h))
-  · have hj' : cfg.jwtEnabled = false := by simpa using hj
-    simp only [hj', Bool.false_eq_true, ↓reduceIte] at h
-    by_cases hba : cfg.basicEnabled = true
-    · simp only [hba, ↓reduceIte] at h
-      cases hbb : env.basic r with
-      | some sb => simp [hbb] at h; subst h; exact Or.inr (Or.inl ⟨hba, hbb⟩)
-      | none => simp only [hbb] at h; exact Or.inr (Or.inr (getValidatedSession_sound cfg env s h))
-    · have : cfg.basicEnabled = false := by simpa using hba
-      simp only [this, Bool.false_eq_true, ↓reduceIte] at h
-      exact Or.inr (Or.inr (getValidatedSession_sound cfg env s h))
-
+  split at h
+  · rename_i sb hb
+    simp at h; subst h
+    split at hb
+    · rename_i hj; exact Or.inl ⟨hj, hb⟩
+    · cases hb
+  · split at h
+    · rename_i sb hb
+      simp at h; subst h
+      split at hb
+      · rename_i hj; exact Or.inr (Or.inl ⟨hj, hb⟩)
+      · cases hb
+    · exact Or.inr (Or.inr (getValidatedSession_sound cfg env s h))
 
 /-! ### handlers -/
 
